@@ -306,6 +306,18 @@ def run(ctx):
         case = json.load(open(ctx.replay))["case"]
         c = case["trace"]["cfg"]
         import torch
+        if c["kind"] == "cumfold":
+            e0 = case["trace"]["ev"][0]
+            from vlib import lattice as LL
+            X = LL.mk(e0["ty"], [[LL.undy(d) for d in row] for row in e0["xs"]], torch.float64)
+            Y = getattr(X.clone(), e0["fn"])(0, left=e0["left"])
+            e1 = dict(e0)
+            e1["outs"] = [LL.dyvec(Y.tensor()[i]) for i in range(len(e0["xs"]))]
+            tr = {"cfg": c, "ev": [e1]}
+            v = ctx.validate("LieTrace", "LieTrace.cfg", [tr], "replay")[0]
+            if v != "ok":
+                ctx.violation("cumfold/%s/%s" % (e0["ty"], v.split("@")[0]), "replayed on the current tree: still differs", {"trace": tr})
+            return
         if c["kind"] == "interval":
             tr = run_interval(ctx, tuple(c["shape"]), c["dim"], c["fn"].rstrip("_"), c["order"], c["inplace"])
         else:
